@@ -80,6 +80,8 @@ AllDev == {"CMapNameUnconfined",     \* _load_data joins the name unchecked: any
                                      \* full stop turn into real ones behind the check
            "ExtFieldsUnvalidated",   \* _save_raw builds the extension ".<bits>.<width>x<height>.img" from the image dictionary's
                                      \* entries without insisting that they are integers (%s instead of %d)
+           "ListsBeforeCheck",       \* the directory part of the joined path is LISTED before the containment test: a name
+                                     \* with separators makes the library list whatever directory the document names
            "LexicalContainment",     \* containment judged on normpath(join(dir, name)) - ".." cancels the component before
                                      \* it textually - instead of on the path the kernel resolves (symbolic links)
            "CheckedAgainstOneDirectory",  \* the name is validated once, against the package's cmap directory, and then
@@ -102,8 +104,9 @@ VARIABLES site, name, icase,            \* chosen by Init
           reads,                        \* files opened for reading: set of <<dir path, file word>>
           creates,                      \* files created, in order: [dir, k, existed]
           outfiles,                     \* indices k (-1 = no index) of candidate files that exist at the image's target
+          lists,                        \* directories whose entries were listed (os.listdir / os.scandir)
           drawn, err, blame
-vars == <<site, name, icase, phase, dirs, reads, creates, outfiles, drawn, err, blame>>
+vars == <<site, name, icase, phase, dirs, reads, creates, outfiles, lists, drawn, err, blame>>
 
 (***************************************************************************)
 (* The tree.                                                               *)
@@ -191,7 +194,7 @@ Init ==
   /\ \/ site \in CMapSites /\ icase = [init |-> {}, draws |-> 0, ext |-> "bmp", src |-> "xobj"]
      \/ site = "image" /\ icase \in ImageCases
   /\ name \in Names
-  /\ phase = "start" /\ dirs = <<>> /\ reads = {} /\ creates = <<>> /\ outfiles = {} /\ drawn = 0
+  /\ phase = "start" /\ dirs = <<>> /\ reads = {} /\ creates = <<>> /\ outfiles = {} /\ lists = {} /\ drawn = 0
   /\ err = "none" /\ blame = {}
 
 Keep == UNCHANGED <<site, name, icase>>
@@ -202,7 +205,7 @@ AStart ==
   /\ IF site = "image"
      THEN /\ phase' = "img_name" /\ outfiles' = icase.init /\ UNCHANGED dirs
      ELSE /\ phase' = "try" /\ dirs' = <<Res, Pkg>> /\ UNCHANGED outfiles     \* cmap_paths = (CMAP_PATH, package cmap dir)
-  /\ Keep /\ UNCHANGED <<reads, creates, drawn, err, blame>>
+  /\ Keep /\ UNCHANGED <<reads, creates, lists, drawn, err, blame>>
 
 \* _load_data: for directory in cmap_paths: path = join(directory, filename); if exists(path): gzip.open(path) ...
 ATryDir ==
@@ -231,6 +234,10 @@ ATryDir ==
              /\ phase' = "done" /\ dirs' = <<>>
         ELSE /\ dirs' = Tail(dirs) /\ UNCHANGED <<reads, blame>>
              /\ phase' = IF Tail(dirs) = <<>> THEN "done" ELSE "try"           \* raise CMapNotFound (caught by callers)
+  \* the intended design looks at nothing but the candidate file itself (exists, then open): no directory is listed
+  /\ lists' = LET d == Head(dirs)
+                  p == ParentDir(d, Effective(site, name))
+              IN IF "ListsBeforeCheck" \in Dev /\ p \notin {Fail, Above} THEN lists \cup {p} ELSE lists
   /\ Keep /\ UNCHANGED <<creates, outfiles, drawn, err>>
 
 (* ---- image export ---- *)
@@ -316,7 +323,7 @@ AExport ==
                   /\ IF icase.ext = "filterill"                 \* the file is open when PDFStream.decode meets the filter
                      THEN err' = "PDFNotImplementedError" /\ phase' = "done"
                      ELSE err' = err /\ phase' = IF drawn + 1 = icase.draws THEN "done" ELSE "img_name"
-  /\ Keep /\ UNCHANGED <<dirs, reads>>
+  /\ Keep /\ UNCHANGED <<dirs, reads, lists>>
 
 Next == AStart \/ ATryDir \/ AExport
 Spec == Init /\ [][Next]_vars
@@ -327,6 +334,9 @@ Spec == Init /\ [][Next]_vars
 \* every file opened for reading is a resource inside a resource directory (the input is passed in open)
 ReadsConfined == \A r \in reads : InResource(r[1]) \/ blame \cap {"CMapNameUnconfined", "ContainmentByCharacters", "ScreenBeforeStrip", "CheckedAgainstOneDirectory",
                                                                       "LexicalContainment"} # {}
+\* a directory whose entries are listed is a resource directory (or lies inside one): the document cannot make the
+\* library look around elsewhere
+ListsConfined == \A d \in lists : InResource(d) \/ "ListsBeforeCheck" \in Dev
 \* every file created lies inside the output directory
 WritesConfined == \A k \in 1..Len(creates) : InOut(creates[k].dir) \/ blame \cap {"ImageNameUnconfined", "ExtFieldsUnvalidated", "NormaliseAfterSanitise"} # {}
 \* a path that exists is never opened for writing
@@ -340,6 +350,6 @@ BlameSound == blame \subseteq Dev
 LookupBounded == Len(dirs) <= 2
 
 EmitTerminal ==
-  phase = "done" => PrintT("@@" \o ToJson([s |-> site, n |-> name, ic |-> icase, rd |-> reads, cr |-> creates,
+  phase = "done" => PrintT("@@" \o ToJson([s |-> site, n |-> name, ic |-> icase, rd |-> reads, ls |-> lists, cr |-> creates,
                                              er |-> err, bl |-> blame]))
 =============================================================================
